@@ -103,6 +103,9 @@ def impl_case(case):
         pr = [fam, a] if fam == "exponential" else [fam, a, b]
         if pos: pr.append("positive")
         prior[nm] = pr
+    # the prior dictionary is written in another order than the parameter list for about half of the multi-parameter cases: flags and
+    # densities belong to NAMES, never to positions (seeded change S3_C16)
+    if len(names) >= 2 and (len(json.dumps(case["terms"])) % 2 == 0): prior = {k: prior[k] for k in reversed(list(prior))}
     pid = DeterministicInference(names, _M, prior); pid.LL_det = _Stub()
     singles = []; g = []
     for nm, t in zip(names, case["terms"]):
